@@ -288,64 +288,15 @@ func c02IRInput(args map[string]string, i int) (ast.Schemas, c02Combo, c02Opts) 
 	return ir, combo, opts
 }
 
-// c02ProbeIR runs the cases in child processes first: a fatal error of the Go runtime (stack
-// overflow in a jenny or a pass) or a run that does not return cannot be recovered in-process.
-// Returns index → reason for the cases that must not be run in this process.
-func c02ProbeIR(args map[string]string, from, n int) map[int]string {
-	bad := map[int]string{}
-	self, err := os.Executable()
-	if err != nil {
-		return bad
-	}
-	next := from
-	for next < from+n {
-		cargs := []string{"c02-ir-probe", fmt.Sprintf("from=%d", next), fmt.Sprintf("n=%d", from+n-next)}
-		for _, k := range []string{"seed", "tier", "hints", "langs", "profile"} {
-			if v, ok := args[k]; ok {
-				cargs = append(cargs, k+"="+v)
-			}
-		}
-		out, err := c02RunCmd("", time.Duration(20+2*(from+n-next))*time.Second, self, cargs...)
-		started, done := -1, -1
-		for _, line := range strings.Split(out, "\n") {
-			var k int
-			if _, e := fmt.Sscanf(line, "start %d", &k); e == nil {
-				started = k
-			}
-			if _, e := fmt.Sscanf(line, "done %d", &k); e == nil {
-				done = k
-			}
-		}
-		if err == nil && done == from+n-1 {
-			break
-		}
-		if started < 0 || started == done {
-			break // the child failed outside a case: give up probing
-		}
-		reason := "did not return (killed after the time limit)"
-		if strings.Contains(out, "stack overflow") {
-			reason = "fatal error: stack overflow"
-			if i := strings.Index(out, "github.com/grafana/cog/internal/"); i >= 0 {
-				j := strings.IndexAny(out[i:], "({")
-				if j > 0 {
-					reason += " in " + strings.TrimPrefix(out[i:i+j], "github.com/grafana/cog/internal/")
-				}
-			}
-		} else if strings.Contains(out, "fatal error:") {
-			reason = "fatal error"
-		}
-		bad[started] = reason
-		next = started + 1
-	}
-	return bad
-}
-
 func c02IRCases(args map[string]string, work string) ([]*c02IRCase, error) {
 	n := argInt(args, "n", 40)
 	from := argInt(args, "from", 0)
 	bad := map[int]string{}
-	if args["probe"] != "0" {
-		bad = c02ProbeIR(args, from, n)
+	for _, k := range strings.Split(args["skip"], ",") {
+		var i int
+		if _, err := fmt.Sscanf(k, "%d", &i); err == nil {
+			bad[i] = "died with a fatal error or did not return"
+		}
 	}
 	cases := []*c02IRCase{}
 	for i := from; i < from+n; i++ {
@@ -365,6 +316,9 @@ func c02IRCases(args map[string]string, work string) ([]*c02IRCase, error) {
 			c.GenErr = "not-run: the pipeline " + why + " on this IR (C04's subject)"
 			continue
 		}
+		// progress marker for the orchestrating parent: a fatal error of the Go runtime (stack overflow in
+		// a jenny or a pass) or a run that does not return cannot be recovered in-process
+		fmt.Fprintf(os.Stderr, "c02-ir-progress start %d\n", i)
 		p, err := c02Pipeline("", "", "", ir, opts, work)
 		if err != nil {
 			return nil, err
@@ -384,6 +338,7 @@ func c02IRCases(args map[string]string, work string) ([]*c02IRCase, error) {
 			c.PostErr = err.Error()
 		}
 		c.PostGo = post
+		fmt.Fprintf(os.Stderr, "c02-ir-progress done %d\n", i)
 		for _, pkg := range c.Pkgs {
 			if src, ok := files["go/"+pkg+"/types_gen.go"]; ok {
 				if frag, err := c02ExtractFragment(src, pkg); err == nil {
@@ -396,33 +351,8 @@ func c02IRCases(args map[string]string, work string) ([]*c02IRCase, error) {
 }
 
 func init() {
-	// child side of c02ProbeIR
-	register("c02-ir-probe", func(args map[string]string, out *bufio.Writer) error {
-		n := argInt(args, "n", 1)
-		from := argInt(args, "from", 0)
-		work := labWorkDir("c02irprobe")
-		defer os.RemoveAll(work)
-		for i := from; i < from+n; i++ {
-			fmt.Fprintf(out, "start %d\n", i)
-			out.Flush()
-			ir, _, opts := c02IRInput(args, i)
-			if c02HasAliasCycle(ir) {
-				fmt.Fprintf(out, "done %d\n", i)
-				continue
-			}
-			if p, err := c02Pipeline("", "", "", ir, opts, work); err == nil {
-				_, _ = c02Run(p)
-			}
-			fmt.Fprintf(out, "done %d\n", i)
-			out.Flush()
-		}
-		return nil
-	})
-}
-
-func init() {
-	register("c02-ir", func(args map[string]string, out *bufio.Writer) error {
-		work := labWorkDir("c02ir-" + args["seed"] + "-" + args["tier"])
+	register("c02-ir-chunk", func(args map[string]string, out *bufio.Writer) error {
+		work := labWorkDir("c02ir-" + args["seed"] + "-" + args["tier"] + "-" + args["from"])
 		if args["keep"] != "1" {
 			defer os.RemoveAll(work)
 		}
@@ -489,7 +419,11 @@ func init() {
 						continue
 					}
 					verdict := "welltyped"
-					if d := godiags["frag/"+pkg]; d != "" {
+					if d := godiags["frag/"+pkg]; strings.HasPrefix(d, "depends on ") {
+						// the fragment of an imported package does not compile: the compiler never looked at this one
+						fmt.Fprintf(out, "-\tskip %s/%s fragment-not-compiled %s\tok\n", c.ID, pkg, labOneLine(labFirstLine(d)))
+						continue
+					} else if d != "" {
 						verdict = "illtyped:" + c02FirstDiag(d)
 					}
 					fmt.Fprintf(out, "godecl %s %s %s\t%s %s\tok\n", c.ID, pkg, goFlagBits(c.Combo.Go), verdict, frag.Stripped)
@@ -541,4 +475,67 @@ func init() {
 		fmt.Fprintln(out, virSchemas(ir))
 		return nil
 	})
+}
+
+func init() {
+	// c02-ir: orchestrator. The cases are processed by child processes in chunks; a child that dies
+	// (fatal stack overflow) or exceeds its time limit is restarted without the case it was working on.
+	register("c02-ir", func(args map[string]string, out *bufio.Writer) error {
+		self, err := os.Executable()
+		if err != nil {
+			return err
+		}
+		n := argInt(args, "n", 40)
+		from := argInt(args, "from", 0)
+		chunk := argInt(args, "chunk", 20)
+		for lo := from; lo < from+n; lo += chunk {
+			k := chunk
+			if lo+k > from+n {
+				k = from + n - lo
+			}
+			skip := []string{}
+			for attempt := 0; ; attempt++ {
+				cargs := []string{"c02-ir-chunk", fmt.Sprintf("from=%d", lo), fmt.Sprintf("n=%d", k), "skip=" + strings.Join(skip, ",")}
+				for _, key := range []string{"seed", "tier", "hints", "langs", "profile", "keep"} {
+					if v, ok := args[key]; ok {
+						cargs = append(cargs, key+"="+v)
+					}
+				}
+				stdout, stderr, err := c02RunSplit(time.Duration(120+20*k)*time.Second, self, cargs...)
+				if err == nil {
+					out.WriteString(stdout)
+					break
+				}
+				started, done := -1, -1
+				for _, line := range strings.Split(stderr, "\n") {
+					var i int
+					if _, e := fmt.Sscanf(line, "c02-ir-progress start %d", &i); e == nil {
+						started = i
+					}
+					if _, e := fmt.Sscanf(line, "c02-ir-progress done %d", &i); e == nil {
+						done = i
+					}
+				}
+				if started < 0 || started == done || attempt > k {
+					return fmt.Errorf("c02-ir-chunk from=%d n=%d failed outside a pipeline run: %v\n%s", lo, k, err, c02Tail(stderr, 3000))
+				}
+				why := "did not return within the time limit"
+				if strings.Contains(stderr, "stack overflow") {
+					why = "fatal error: stack overflow"
+				} else if strings.Contains(stderr, "fatal error:") {
+					why = "fatal error"
+				}
+				fmt.Fprintf(out, "-\tskip i%d not-run: the pipeline %s on this IR (C04's subject)\tok\n", started, why)
+				skip = append(skip, fmt.Sprint(started))
+			}
+		}
+		return nil
+	})
+}
+
+func c02Tail(s string, n int) string {
+	if len(s) > n {
+		return s[len(s)-n:]
+	}
+	return s
 }
